@@ -4,6 +4,7 @@ import array
 from vf import dtwmon, gen, monitors, oracle
 from vf.oracle import inf
 from vf.runner import Plan
+from vf import ownsuite
 
 RULE = ("cases = (collection, block, output form, engine) calls of dtw.distance_matrix / distance_matrix_fast / "
         "dtw_ndim.distance_matrix / dtw_cc.distance_matrix(_ndim) / distances_array_to_matrix / "
@@ -16,7 +17,7 @@ RULE = ("cases = (collection, block, output form, engine) calls of dtw.distance_
 ASSUME = ["single-pair distances are taken from the Python engine (checked by C01); C entries may differ by 16 ulp",
           "with only_triu the diagonal may be 0 or inf (not specified)", "a rectangular non-triangular block in "
           "square form is documented to raise and is not generated"]
-PLAN = Plan("C06", RULE, ASSUME,
+PLAN = Plan("C06", RULE, ASSUME, native=ownsuite.native_for("c06", "C06"),
             workers={"quick": [("plain", 16, "C06")], "thorough": [("plain", 13, "C06"), ("asan", 3, "C06")]},
             deciding=("blocks_checked", "entries_checked", "square_forms_checked", "condensed_index_checked"),
             crash_is_violation=True, exhaustive=True)
